@@ -4,6 +4,8 @@
 here=$(cd "$(dirname "$0")/.." && pwd)
 wt=/tmp/wt/sc-$$
 git -C /repo worktree add --detach -q "$wt" HEAD || exit 2
+trap 'git -C /repo worktree remove --force "$wt" 2>/dev/null' EXIT
+trap 'exit 1' PIPE INT TERM
 git -C "$wt" apply "$here/seeded/$1/patch.diff" || { git -C /repo worktree remove --force "$wt"; exit 3; }
 mkdir -p /tmp/vo
 VERIF_OUT=/tmp/vo "${BIN:-$here/bin/ntripcheck}" -property "$2" -tier quick -repo "$wt" -verif "$here" 2>&1 | grep -v '^  *ok' | sed "s#$wt/##g" | cut -c1-${W:-400}
